@@ -32,7 +32,7 @@ func obsRows(rows [][]string) string { return "" }
 func runQueryProp(prop string, seed int64, tier string, out string) {
 	r := rand.New(rand.NewSource(seed))
 	meta := newMeta(prop, seed)
-	g := &qGen{r: r, pool: qPool(), noDiv: false}
+	g := &qGen{r: r, pool: qPool(), noDiv: false, lateral: prop == "C03"}
 	selfCheckLiterals(g.pool)
 	nWorlds, perWorld := 45, 14
 	if tier == "thorough" {
@@ -63,7 +63,8 @@ func runQueryProp(prop string, seed int64, tier string, out string) {
 	for wi := 0; wi < nWorlds; wi++ {
 		sc := newScratch()
 		tx := newTx(sc.Dir)
-		w := &qWorld{}
+		w := &qWorld{recLimit: []int{1000, 5, 3, 8}[wi%4]}
+		tx.Flags.SetLimitRecursion(int64(w.recLimit))
 		big := wi%7 == 3
 		medium := !big && wi%3 == 1 && prop != "C07"
 		for ti := 0; ti < 3; ti++ {
@@ -161,6 +162,16 @@ func runQueryProp(prop string, seed int64, tier string, out string) {
 			}
 			tx.Flags.SetCPU(q.cpu)
 			tx.Flags.SetStrictEqual(q.strict)
+			for _, lsql := range q.laterals {
+				// finding lateral-empty-left-no-columns: with an empty left operand the derived table is never
+				// evaluated and the join has no columns at all; whether the operand is empty is asked of the
+				// implementation itself, so the tag is exact
+				cv, cerr := selectView(tx, q.with+"SELECT COUNT(*) FROM "+lsql)
+				if cerr == nil && cv.RecordLen() == 1 && cv.RecordSet[0][0][0].String() == "0" {
+					q.tags = append(q.tags, "lateral-empty-left-no-columns")
+					break
+				}
+			}
 			view, err := selectView(tx, q.sql)
 			var obs, show string
 			nrows := 0
@@ -170,9 +181,10 @@ func runQueryProp(prop string, seed int64, tier string, out string) {
 				if strings.Contains(err.Error(), "syntax error") || strings.Contains(err.Error(), "harness:") {
 					panic("harness: generated query is not valid: " + q.sql + ": " + err.Error())
 				}
-			} else if view.RecordLen() > 2500 {
-				// a result this large makes the Coq literal unwieldy: not compared (counted)
-				meta.Distribution["dropped:result>2500-rows"]++
+			} else if view.RecordLen() > 2500 || (q.mode == 1 && view.RecordLen() > 1000) {
+				// a result this large makes the Coq literal unwieldy (and the multiset comparison, quadratic in the
+				// number of rows, slow): not compared (counted)
+				meta.Distribution["dropped:result-too-large"]++
 				continue
 			} else {
 				rows := viewRows(view)
